@@ -126,7 +126,21 @@ func DefaultConfig() config.Config {
 	return c
 }
 
-func Start(o Options) (*Broker, error) {
+// InitPanic is returned by Start when server.New / Init panicked (the broker cannot start with this configuration).
+type InitPanic struct{ Value string }
+
+func (e *InitPanic) Error() string { return "broker init panicked: " + e.Value }
+
+func Start(o Options) (b *Broker, err error) {
+	defer func() {
+		if x := recover(); x != nil {
+			b, err = nil, &InitPanic{Value: fmt.Sprint(x)}
+		}
+	}()
+	return start(o)
+}
+
+func start(o Options) (*Broker, error) {
 	once.Do(install)
 	var ln net.Listener
 	var err error
